@@ -37,6 +37,10 @@ def run(chk, tier, proof_ok):
     search = adapt.direction_search(chk.seed, tier, full=not proof_ok)      # runs while the correspondence does
     divs, cov = adapt.correspondence(chk, tier)
     findings, scov = search.result()
+    sf, sst = adapt.sustained_rate_findings(chk.seed, full=(tier != 'quick') or not proof_ok)
+    for k_, v in sf.items():
+        findings.setdefault(k_, v)
+    scov['sustained_rates'] = sst
     if divs and tier != 'thorough' and proof_ok:
         # the correspondence broke: the full search
         more, mcov = adapt.direction_search(chk.seed + 1, tier, full=True).result()
@@ -65,9 +69,9 @@ def run(chk, tier, proof_ok):
         'value has (checked by DriverAdapt on every oracle value used: algebraic identity (g+c)^5 dk^3 = 1, Taylor '
         'enclosure of exp)',
         'for the Andrieu-Thoms and eigenvector families "widens/narrows" is about the scale factor lambda '
-        '(DESIGN 2.8); a user supplied adaptation_decay is inside the quantifier as long as it is <= the default '
-        '1/log10(T) (C13_gain_pos_veitch_decay; the cases use 0.45-0.95 of the default); a larger one makes the gain '
-        'negative before the window ends and is outside it',
+        '(DESIGN 2.8); every positive user supplied adaptation_decay is inside the quantifier (C13_gain_pos_veitch_decay; '
+        'the constant of the Veitch gain follows the decay since the repo fix of the third session; the sustained-rate '
+        'search drives decays of 1.6 and 2.3 times the default)',
     ]
     for key, (text, case) in sorted(findings.items()):
         chk.violation(key, text, {'case': case, 'search': 'direction',
